@@ -159,8 +159,12 @@ Alphabet ==
          \cup {Upd(U, <<<<K, IntV(1)>>>>, True), Upd(U, <<<<K, IntV(3)>>>>, Eq(K, IntV(1))),
                Upd(U, <<<<K, IntV(9)>>, <<K, IntV(2)>>>>, Eq(K, IntV(1))), Upd(U, <<<<K, IntV(2)>>, <<K, IntV(9)>>>>, Eq(K, IntV(1)))}
          \cup {Del(U, Eq(K, IntV(1))), E("IntoInner", [x |-> 0]), E("Reopen", [x |-> 0])}
-         \* composite key (K, V): an UNCONDITIONAL update of the leading key column leaves the rows to be ordered by the rest
-         \cup {Cre(T, TabC), Ins(T, <<<<IntV(1), sa, Null>>>>), Ins(T, <<<<IntV(2), Null, Null>>>>), Upd(T, <<<<K, IntV(7)>>>>, True)}
+    [] Cfg = "keysc" ->         \* composite key (K, V) on its own: updates that assign SOME of the key columns, with and without a condition
+         {Cre(T, TabC), Ins(T, <<<<IntV(1), sa, Null>>>>), Ins(T, <<<<IntV(2), Null, Null>>>>),
+          Upd(T, <<<<K, IntV(7)>>>>, True),                        \* leading key column, no condition: the rows are then ordered by the rest of the key
+          Upd(T, <<<<K, IntV(1)>>>>, Eq(K, IntV(2))),               \* in front of the existing key (1, "a"): (1, null) sorts first
+          Upd(T, <<<<V, sa>>>>, Eq(K, IntV(2))),                    \* trailing key column: (2, "a")
+          E("IntoInner", [x |-> 0]), E("Reopen", [x |-> 0])}
     [] Cfg = "keys" ->          \* key shapes: key not first, composite with nullable string part
          {Cre(U, TabU), Cre(T, TabC), Drp(U), Drp(T)}
          \cup {Ins(U, <<<<v, IntV(k)>>>>) : k \in {1, 2}, v \in {Null, sa}}
@@ -221,7 +225,7 @@ MCSpec == MCInit /\ [][MCNext]_vars
 
 \* names that could alias another one under the packing or under the container's comparison
 ProbeNames == {<<97>>, <<48, 48>>, <<14336>>, T, <<233>>, Packable(62), <<95, 95>>, <<18431>>}
-PoolBound == /\ Len(pool) <= (IF Cfg = "catalog" THEN 90 ELSE 40)
+PoolBound == /\ Len(pool) <= (IF Cfg = "catalog" THEN 90 ELSE IF Cfg = "keysc" THEN 60 ELSE 40)
              /\ Cardinality(DOMAIN ustreams \ {SIG}) <= 2
              /\ (Cfg = "streamsfull" /\ Cardinality(DOMAIN ustreams \ {SIG}) = 2 => (DOMAIN ustreams \cap ProbeNames) # {})
 
